@@ -1322,8 +1322,9 @@ func (t *tree) errorfAt(pos ast.Pos, format string, args ...interface{}) {
 		lx, pos = t.fileLex, t.filePos
 	}
 	var line, col = lx.lineNumber(pos), lx.columnNumber(pos)
-	format = fmt.Sprintf("template %s:%d:%d: %s", t.name, line, col, format)
-	panic(errortypes.NewErrFilePosf(t.name, line, col, format, args...))
+	// (the name is an argument, never part of a format: it may contain a '%')
+	var msg = fmt.Sprintf(format, args...)
+	panic(errortypes.NewErrFilePosf(t.name, line, col, "template %s:%d:%d: %s", t.name, line, col, msg))
 }
 
 // error terminates processing.
